@@ -16,7 +16,9 @@ CONSTANTS
   Transforms,  \* set of transforms a rule may carry (contains <<"none">>)
   MaxRules,
   FixedRules,  \* rules every program contains (may be {})
-  EdbChoices   \* set of base-fact sets
+  EdbChoices,  \* set of base-fact sets
+  Randomized,  \* TRUE: rules are drawn component-wise at random (for tlc -simulate over large vocabularies)
+  Keep(_)      \* filter on candidate rules (e.g. no arithmetic inside recursion)
 
 VARIABLES rules, edb, phase
 vars == <<rules, edb, phase>>
@@ -26,20 +28,60 @@ RuleCands == {[h |-> hd, b |-> bd, t |-> tr] : hd \in Heads, bd \in Bodies, tr \
 
 Init == rules = FixedRules /\ edb = {} /\ phase = "rules"
 
-AddRule == /\ phase = "rules"
+AddRule == /\ phase = "rules" /\ ~Randomized
            /\ Cardinality(rules) < MaxRules + Cardinality(FixedRules)
-           /\ \E r \in RuleCands \ rules : rules' = rules \cup {r}
+           /\ \E r \in RuleCands \ rules : Keep(r) /\ rules' = rules \cup {r}
            /\ UNCHANGED <<edb, phase>>
+
+\* Random rules are parameterised by the state so that TLC does not cache them as constants.
+\* Most are built constructively: every next literal is ready under the variables bound so far,
+\* and the head/transform only use available variables; about one in ten is unconstrained.
+\* Every random draw is bound through a singleton-set quantifier: TLC re-evaluates LET
+\* definitions at each use inside actions, which would redraw.
+RECURSIVE GrowBody(_, _, _)
+GrowBody(b, k, bound) ==
+  IF k = 0 THEN b
+  ELSE CHOOSE res \in {GrowBody(Append(b, l), k - 1, bound \cup LitVars(l))
+                         : l \in {RandomElement({x \in BodyLits : Ready(x, bound \cup {"#" : i \in 1..(0 * k)})})}} : TRUE
+
+Probe(b, t) == [h |-> [p |-> "x", a |-> <<>>], b |-> b, t |-> t]
+PickBody(free, n) ==
+  CHOOSE b \in {IF free THEN [i \in 1..k |-> RandomElement(BodyLits)] ELSE GrowBody(<<>>, k, {})
+                 : k \in {RandomElement(1..(MaxBody + 0 * n))}} : TRUE
+PickTransform(b, free) ==
+  LET ts == {t \in Transforms : (t[1] = "let" => LetOK(Probe(b, t))) /\ (t[1] = "do" => DoOK(Probe(b, t)))} IN
+  IF free \/ ts = {} THEN RandomElement({t \in Transforms : Len(b) >= 0}) ELSE RandomElement(ts)
+PickHead(b, t, free) ==
+  LET hs == {h \in Heads : AtomVars(h) \subseteq HeadAvail(Probe(b, t))} IN
+  IF free \/ hs = {} THEN RandomElement({h \in Heads : Len(b) >= 0}) ELSE RandomElement(hs)
+
+RandomRule(n) ==
+  CHOOSE r \in UNION { UNION { UNION { {[h |-> h, b |-> b, t |-> t] : h \in {PickHead(b, t, free)}}
+                                         : t \in {PickTransform(b, free)} }
+                                 : b \in {PickBody(free, n)} }
+                         : free \in {RandomElement(1..(10 + 0 * n)) = 1} } : TRUE
+
+AddRandomRule ==
+  /\ phase = "rules" /\ Randomized
+  /\ Cardinality(rules) < MaxRules + Cardinality(FixedRules)
+  /\ \E r \in {RandomRule(Cardinality(rules))} : IF Keep(r) THEN rules' = rules \cup {r} ELSE UNCHANGED rules
+  /\ UNCHANGED <<edb, phase>>
 
 ChooseEdb == /\ phase = "rules"
              /\ rules # {}
-             /\ \E e \in EdbChoices : edb' = e
+             /\ IF Randomized THEN edb' = RandomElement({e \in EdbChoices : Cardinality(rules) >= 0}) ELSE \E e \in EdbChoices : edb' = e
              /\ phase' = "done"
              /\ UNCHANGED rules
 
-Next == AddRule \/ ChooseEdb
+Next == AddRule \/ AddRandomRule \/ ChooseEdb
 Spec == Init /\ [][Next]_vars
 
-Case == [rules |-> SetToSeq(rules), edb |-> SetToSeq(edb)]
+\* In randomized mode safe rules are emitted with their body in a ready order, so that most of
+\* them get past the analyzer's left-to-right checks; exhaustive scopes emit the body as written.
+Ordered(r) ==
+  IF Randomized /\ Safe(r)
+  THEN [r EXCEPT !.b = LET o == Schedule(r.b, DOMAIN r.b, {}) IN [i \in DOMAIN o |-> r.b[o[i]]]]
+  ELSE r
+Case == [rules |-> SetToSeq({Ordered(r) : r \in rules}), edb |-> SetToSeq(edb)]
 Emit == phase = "done" => PrintT(<<"CASE", ToJson(Case)>>)
 =============================================================================
